@@ -319,6 +319,7 @@ class FSM(object):
                 # self.bgp_peering.releaseResources(self.protocol)
                 pass
             self._close_connection()
+            self.hold_timer.cancel()
             self.connect_retry_timer.reset(self.connect_retry_time)
             self.state = bgp_cons.ST_ACTIVE
             if self.bgp_peering:
@@ -425,6 +426,8 @@ class FSM(object):
         if self.state in (bgp_cons.ST_OPENSENT, bgp_cons.ST_OPENCONFIRM):
             # State OpenSent, event 24
             self.connect_retry_timer.cancel()
+            self.hold_timer.cancel()
+            self.keep_alive_timer.cancel()
             self._close_connection()
             self.state = bgp_cons.ST_IDLE
         elif self.state in (bgp_cons.ST_CONNECT, bgp_cons.ST_ACTIVE, bgp_cons.ST_ESTABLISHED):
